@@ -688,6 +688,35 @@ fn check_history(prog: &Program, all: &[Rec], viol: &mut Vec<Violation>) {
             _ => {}
         }
     }
+    // a lookup that finds nothing although an insert of the key had completed before it
+    // began, every other write to the key and every invalidate_all came before that
+    // insert, and nothing can have evicted or expired it
+    {
+        let total_w: u64 = inserts.iter().map(|i| if let TOp::Ins(_, w) = i.op { prog.cfg.pw(w as u32) as u64 } else { 0 }).sum();
+        let no_pressure = prog.cfg.cap.map(|c| total_w <= c).unwrap_or(true);
+        if no_pressure && !prog.cfg.has_expiry() {
+            for r in all {
+                let k = match (&r.op, &r.obs) {
+                    (TOp::Get(k), Obs::Val(None)) => *k,
+                    (TOp::Con(k), Obs::Bool(false)) => *k,
+                    _ => continue,
+                };
+                let settled = inserts.iter().any(|i| {
+                    matches!(i.op, TOp::Ins(k2, _) if k2 == k)
+                        && after(r, i)
+                        && all.iter().all(|x| std::ptr::eq(x, *i) || !(x.op.writes_key() == Some(k) || matches!(x.op, TOp::InvAll)) || after(i, x))
+                });
+                if settled {
+                    let d = format!("T{}#{} {} found nothing although an insert of key {k} had completed before it began and nothing was written to the key or invalidated afterwards", r.thread, r.idx, r.op.text());
+                    viol.push(Violation { prop: "C03", sig: "sched:live-entry-missing".into(), detail: d.clone(), witness: String::new() });
+                    viol.push(Violation { prop: "C02", sig: "sched:live-entry-missing".into(), detail: d.clone(), witness: String::new() });
+                    if all.iter().any(|x| matches!(x.op, TOp::InvAll | TOp::Inv(_))) {
+                        viol.push(Violation { prop: "C07", sig: "sched:live-entry-missing".into(), detail: d, witness: String::new() });
+                    }
+                }
+            }
+        }
+    }
     // expiry under concurrency (conservative: flagged only when every reading that could
     // have extended the entry's life is certainly too old)
     for r in all {
@@ -839,8 +868,8 @@ fn postlude(prog: &Program, sut: &mut Sut, all: &[Rec], viol: &mut Vec<Violation
     if !prog.threads.iter().flatten().any(|o| matches!(o, TOp::Burst(..))) {
         let total_w: u64 = inserts.iter().map(|i| if let TOp::Ins(_, w) = i.op { cfg.pw(w as u32) as u64 } else { 0 }).sum();
         let no_pressure = cfg.cap.map(|c| total_w <= c).unwrap_or(true);
-        let has_invall = all.iter().any(|r| matches!(r.op, TOp::InvAll));
-        if no_pressure && !cfg.has_expiry() && !has_invall {
+        let invalls: Vec<&Rec> = all.iter().filter(|r| matches!(r.op, TOp::InvAll)).collect();
+        if no_pressure && !cfg.has_expiry() {
             for k in 0..cfg.nkeys {
                 let writes: Vec<&Rec> = all.iter().filter(|r| r.op.writes_key() == Some(k)).collect();
                 if writes.is_empty() {
@@ -848,7 +877,10 @@ fn postlude(prog: &Program, sut: &mut Sut, all: &[Rec], viol: &mut Vec<Violation
                 }
                 // a write is final if no other write to k starts after it ended
                 let finals: Vec<&&Rec> = writes.iter().filter(|w| !writes.iter().any(|x| after(x, w))).collect();
-                let all_inserts = !finals.is_empty() && finals.iter().all(|w| matches!(w.op, TOp::Ins(..)));
+                // ... and every invalidate_all had returned before it began ("anything
+                // inserted or updated after the call remains retrievable")
+                let all_inserts = !finals.is_empty()
+                    && finals.iter().all(|w| matches!(w.op, TOp::Ins(..)) && invalls.iter().all(|ia| after(w, ia)));
                 let held = snap.entries.iter().find(|e| e.key as u8 == k).map(|e| e.value);
                 if all_inserts && held.is_none() {
                     viol.push(Violation {
@@ -858,6 +890,9 @@ fn postlude(prog: &Program, sut: &mut Sut, all: &[Rec], viol: &mut Vec<Violation
                         witness: String::new(),
                     });
                     viol.push(Violation { prop: "C03", sig: "sched:final-value-lost".into(), detail: format!("key {k} lost without capacity pressure, expiry or invalidation"), witness: String::new() });
+                    if !invalls.is_empty() || writes.iter().any(|w| matches!(w.op, TOp::Inv(_))) {
+                        viol.push(Violation { prop: "C07", sig: "sched:final-value-lost".into(), detail: format!("key {k} was inserted after every invalidation had returned, but is absent after all threads stopped"), witness: String::new() });
+                    }
                 }
             }
         }
@@ -1064,6 +1099,19 @@ pub fn family(name: &str, tier: &str) -> Vec<Program> {
                     out.push(Program { cfg: base(cap, None), prefix: vec![Op::Ins(0, 1), Op::Sync], threads: t.clone() });
                 }
             }
+            // three threads: maintenance against two writers of its victim (2 preemptions of
+            // the maintenance thread; the final-state clause judges)
+            for pre in [
+                vec![Op::Ins(0, 1), Op::Sync, Op::Get(1), Op::Ins(1, 1)],
+                vec![Op::Ins(0, 1), Op::Sync, Op::Get(1), Op::Ins(1, 1), Op::Ins(0, 1)],
+            ] {
+                for th in [
+                    vec![vec![TOp::Sync], vec![TOp::Ins(0, 1)], vec![TOp::Ins(0, 1)]],
+                    vec![vec![TOp::Sync], vec![TOp::Inv(0), TOp::Ins(0, 1)], vec![TOp::Ins(0, 1)]],
+                ] {
+                    out.push(Program { cfg: base(Some(1), None), prefix: pre.clone(), threads: th.clone() });
+                }
+            }
             // maintenance evicting / rejecting an entry while writers update the same key:
             // the prelude leaves a popular newcomer and an update of its victim queued
             for th in [
@@ -1092,6 +1140,37 @@ pub fn family(name: &str, tier: &str) -> Vec<Program> {
                         out.push(Program { cfg: c, prefix: pre.clone(), threads: vec![a.clone(), b.clone()] });
                     }
                 }
+            }
+        }
+        // (c02w continued) curated: excess eviction / watermark purge racing writers of the
+        // entry being removed, with weights that make a wrong subtraction visible
+        "c02x" => {
+            let mk = |pre: Vec<Op>, th: Vec<Vec<TOp>>, cap: Option<u64>| {
+                let mut c = base(cap, None);
+                c.weigher = true;
+                Program { cfg: c, prefix: pre, threads: th }
+            };
+            // an update grew key 1: the excess eviction takes key 0 while writers update key 0
+            out.push(mk(vec![Op::Ins(0, 1), Op::Ins(1, 1), Op::Sync, Op::Ins(1, 2)], vec![vec![TOp::Sync], vec![TOp::Ins(0, 1)], vec![TOp::Ins(0, 1)]], Some(2)));
+            out.push(mk(vec![Op::Ins(0, 1), Op::Ins(1, 1), Op::Sync, Op::Ins(1, 2)], vec![vec![TOp::Sync], vec![TOp::Ins(0, 1), TOp::Get(0)]], Some(2)));
+            out.push(mk(vec![Op::Ins(0, 1), Op::Ins(1, 1), Op::Sync, Op::Ins(1, 2)], vec![vec![TOp::Sync], vec![TOp::Inv(0), TOp::Ins(0, 1)], vec![TOp::Ins(0, 1)]], Some(2)));
+            // the same after the clock moved (timestamps of the writers' updates differ from
+            // the one maintenance peeked)
+            let pre_adv = vec![Op::Ins(0, 1), Op::Ins(1, 1), Op::Sync, Op::Ins(1, 2), Op::Adv(1)];
+            out.push(mk(pre_adv.clone(), vec![vec![TOp::Sync], vec![TOp::Ins(0, 1)], vec![TOp::Ins(0, 1)]], Some(2)));
+            out.push(mk(pre_adv.clone(), vec![vec![TOp::Sync], vec![TOp::Ins(0, 1)], vec![TOp::Inv(0)]], Some(2)));
+            out.push(mk(pre_adv.clone(), vec![vec![TOp::Sync], vec![TOp::Ins(0, 1), TOp::Get(0)]], Some(2)));
+            // a queued re-weigh of an entry that the watermark purge removes meanwhile
+            out.push(mk(vec![Op::Ins(0, 1), Op::Sync, Op::Adv(1)], vec![vec![TOp::Ins(0, 2)], vec![TOp::Adv(1), TOp::InvAll, TOp::Ins(1, 2), TOp::Sync]], None));
+            out.push(mk(vec![Op::Ins(0, 2), Op::Sync, Op::Adv(1)], vec![vec![TOp::Ins(0, 1)], vec![TOp::Adv(1), TOp::InvAll, TOp::Ins(1, 1), TOp::Sync]], None));
+            // a writer re-inserting right after invalidate_all while maintenance purges
+            for cap in [None, Some(2u64)] {
+                out.push(mk(vec![Op::Ins(0, 1), Op::Sync, Op::Adv(1), Op::InvAll], vec![vec![TOp::Sync], vec![TOp::Ins(0, 1), TOp::Get(0)]], cap));
+                out.push(mk(vec![Op::Ins(0, 1), Op::Ins(1, 1), Op::Sync, Op::Adv(1), Op::InvAll], vec![vec![TOp::Sync, TOp::Get(1)], vec![TOp::Ins(1, 1)]], cap));
+                // a reader of the invalidated (not yet purged) entry against a writer that
+                // re-inserts the key (the entry info, hence the timestamps, is shared)
+                out.push(mk(vec![Op::Ins(0, 1), Op::Sync, Op::Adv(1), Op::InvAll], vec![vec![TOp::Get(0)], vec![TOp::Ins(0, 1)]], cap));
+                out.push(mk(vec![Op::Ins(0, 1), Op::Sync, Op::Adv(1), Op::InvAll], vec![vec![TOp::Con(0), TOp::Get(0)], vec![TOp::Ins(0, 1)]], cap));
             }
         }
         // ... and with time-to-idle and a moving clock
@@ -1148,6 +1227,17 @@ pub fn family(name: &str, tier: &str) -> Vec<Program> {
                     c.beyond = beyond;
                     out.push(Program { cfg: c, prefix: pre.clone(), threads: th.clone() });
                 }
+            }
+            // expiry purge racing an invalidation of the next expired key (the purge loops
+            // skip a node whose key is gone; they must stay bounded)
+            for (ttl, tti) in [(Some(2u32), None), (None, Some(2u32)), (Some(2), Some(3))] {
+                let mut c = base(None, tti);
+                c.ttl = ttl;
+                c.nkeys = 3;
+                let pre = vec![Op::Ins(0, 1), Op::Ins(1, 1), Op::Ins(2, 1), Op::Sync, Op::Adv(3)];
+                out.push(Program { cfg: c.clone(), prefix: pre.clone(), threads: vec![vec![TOp::Sync], vec![TOp::Inv(1)]] });
+                out.push(Program { cfg: c.clone(), prefix: pre.clone(), threads: vec![vec![TOp::Sync], vec![TOp::Inv(1), TOp::Inv(2)]] });
+                out.push(Program { cfg: c.clone(), prefix: pre.clone(), threads: vec![vec![TOp::Get(0)], vec![TOp::Inv(0), TOp::Inv(1)]] });
             }
             // maintenance racing writers of the entry it is about to evict (weigher: an
             // update grows an admitted entry above the capacity)
